@@ -103,9 +103,10 @@ def component_subiterator_next : List String :=
 def component_subiterator_next_module : List String :=
   ["while", ".curr_mod +=", "if", ".mod_iterator =", "mod_iterator_for()", "if", ".end()", "return"]
 
-/-- M13 `setFnName`: local functions carry their name themselves, imported ones in the import-name table -/
+/-- M13 `setFnName`: the kind of the function decides (F38); local functions carry their name themselves, imported ones in the import-name table at the import entry they record -/
 def set_fn_name : List String :=
-  ["if", ".set_fn_name()", "assert!", ".set_imported_fn_name()", "else", "assert!", ".set_local_fn_name()"]
+  ["match", ".get_kind()", "Import()", "Local()", "if", ".set_name()", "assert!", ".set_imported_fn_name()", "else",
+   "assert!", ".set_local_fn_name()"]
 
 /-- M2 / M13 `addGlobal`: a local global appended -/
 def add_global_with_tag : List String :=
@@ -411,5 +412,33 @@ def localfn_clear_instr_at : List String :=
 /-- Body::clear_instr: the flag of the addressed instruction -/
 def body_clear_instr : List String :=
   ["self.instructions[idx].instr_flag.clear_instr(mode);"]
+
+/-- M5 `Types` as a key, hashing: the variant, then for a function type parameters, results, supertype, finality, sharing (in this order: the split between parameters and results is part of the key); for arrays and structs fields and mutability too; tags are not part of the key -/
+def types_hash : List String :=
+  ["state.write_u8(self.hash_id());", "match self{", "Types::FuncType{",
+   "params,results,super_type,is_final,shared,..}", "=>{", "params.hash(state);", "results.hash(state);",
+   "super_type.hash(state);", "is_final.hash(state);", "shared.hash(state);", "}", "Types::ArrayType{",
+   "fields,mutable,super_type,is_final,shared,..}", "=>{", "fields.hash(state);", "mutable.hash(state);",
+   "super_type.hash(state);", "is_final.hash(state);", "shared.hash(state);", "}", "Types::StructType{",
+   "fields,mutable,super_type,is_final,shared,..}", "=>{", "fields.hash(state);", "mutable.hash(state);",
+   "super_type.hash(state);", "is_final.hash(state);", "shared.hash(state);", "}", "Types::ContType{",
+   "packed_index,super_type,is_final,shared,..}", "=>{", "packed_index.hash(state);", "super_type.hash(state);",
+   "is_final.hash(state);", "shared.hash(state);", "}", "}"]
+
+/-- M5 `Types` as a key, equality: the same components as the hash, compared pairwise; different variants are different -/
+def types_eq : List String :=
+  ["match(self,other){", "(Self::FuncType{", "params,results,super_type,is_final,shared,..}", ",Self::FuncType{",
+   "params: params1,results: results1,super_type: super_type1,is_final: is_final1,shared: shared1,..}", ",)=>{",
+   "params.eq(params1)&& results.eq(results1)&& super_type.eq(super_type1)&& *is_final == *is_final1 && *shared == *shared1}",
+   "(Self::ArrayType{", "fields,mutable,super_type,is_final,shared,..}", ",Self::ArrayType{",
+   "fields: fields1,mutable: mutable1,super_type: super_type1,is_final: is_final1,shared: shared1,..}", ",)=>{",
+   "fields.eq(fields1)&& *mutable == *mutable1 && super_type.eq(super_type1)&& *is_final == *is_final1 && *shared == *shared1}",
+   "(Self::StructType{", "fields,mutable,super_type,is_final,shared,..}", ",Self::StructType{",
+   "fields: fields1,mutable: mutable1,super_type: super_type1,is_final: is_final1,shared: shared1,..}", ",)=>{",
+   "fields.eq(fields1)&& *mutable == *mutable1 && super_type.eq(super_type1)&& *is_final == *is_final1 && *shared == *shared1}",
+   "(Self::ContType{", "packed_index,super_type,is_final,shared,..}", ",Self::ContType{",
+   "packed_index: packed_index1,super_type: super_type1,is_final: is_final1,shared: shared1,..}", ",)=>{",
+   "packed_index.eq(packed_index1)&& super_type.eq(super_type1)&& *is_final == *is_final1 && *shared == *shared1}",
+   "(_,_)=> false,}"]
 
 end Orca.ApiOutlineSpec
